@@ -7,6 +7,9 @@ package main
 //   setup:  source and recovery consumer are built by the real KafkaConsumer.Setup and a rebalance has happened before recovery starts
 //   seq:    the partitions' windows (n/k records each) are recovered one after the other, each to completion, so that the
 //           assignment changes k times while the limiter is in use
+//   replay: half of the records are delivered, then the assignment changes (another partition gets a request and is assigned),
+//           which re-assigns the client at the last persisted offset: the records after it are delivered and emitted AGAIN - they
+//           count against the limit like any other recovery event
 //   revoke: once the burst is used up and a recovery record is waiting for its token, the main consumer gets a
 //           revocation and then a record; measured: how long that record takes
 
@@ -34,6 +37,7 @@ func genRateLimit(r *rng, n int, tier string, emit func(string)) {
 	emit("rate 200 parts 6 n 600 seq")
 	emit("rate 1 parts 1 n 104 revoke")
 	emit("rate 300 parts 2 n 400 setup")
+	emit("rate 200 parts 1 n 600 replay")
 	if tier == "thorough" {
 		emit("rate 50 parts 3 n 150")
 		emit("rate 5000 parts 4 n 4600")
@@ -143,6 +147,18 @@ func execRateLimit(input string) string {
 			}
 		}
 		n = parts * per
+	case "replay":
+		half := n / 2
+		for o := 0; o < half; o++ {
+			rc.VerifProcessEvent(recMsg(&topic, 0, int64(o)))
+		}
+		extra := kafka.TopicPartition{Topic: &topic, Partition: int32(parts)}
+		rc.RequestRecovery(extra.Partition, 0, 5)
+		rc.SetAssignedPartitions(append(append([]kafka.TopicPartition{}, tps...), extra))
+		_ = rc.RefreshAssignments()
+		for o := 0; o < n-half; o++ { // what a real client delivers after being re-assigned at the persisted offset 0
+			rc.VerifProcessEvent(recMsg(&topic, 0, int64(o)))
+		}
 	case "revoke":
 		pushed := make(chan struct{})
 		go func() {
